@@ -214,6 +214,9 @@ Fixpoint advance_to (fuel : nat) (cfg : e2e_cfg) (y : sys) (t : N) : sys * list 
 
 (* ------------------------------------------------------------------ events *)
 
+(* the system clock (a session that has ended no longer advances its own) *)
+Definition sys_now (y : sys) : N := N.max (cl_now (y_cl y)) (gw_now (y_gw y)).
+
 Inductive sys_event :=
 | SCall (id : N) (a : api)
 | SBpub (m : mq_pkt)          (* a PUBLISH originated by the broker (another client published) *)
@@ -230,7 +233,7 @@ Definition sys_step (cfg : e2e_cfg) (y : sys) (ev : sys_event) : sys * list sys_
     if b_closed (y_br y) then (y, []) else
     let '(y1, tr1) := pump pump_fuel cfg y [FromBroker m] in
     (y1, SoBS (gw_now (y_gw y)) m :: tr1)
-  | SAdv d => advance_to adv_fuel cfg y (gw_now (y_gw y) + d)
+  | SAdv d => advance_to adv_fuel cfg y (sys_now y + d)
   end.
 
 Fixpoint sys_run (cfg : e2e_cfg) (y : sys) (evs : list sys_event) : list (list sys_out) * sys :=
